@@ -240,6 +240,10 @@ def check_class(run, repo, eff, fr, ci, fams, encs):
     for e in effs:
         if not guard_has(e.guards, is_condition_passed, True):
             bad('C03-G', 'unguarded ' + e.kind, 'effect `%s` is not dominated by condition_passed()' % e.text())
+    # ---- N: the call site of the ThumbEE null check ----
+    if fam.op not in ('Srs', 'Rfe'):
+        from . import c02 as _c02
+        _c02.check_null_check_call(bad, 'C03-N', tr, encs, base_idx, fam.describe())
     # ---- F ----
     allowed_calls = {'null_check_if_thumbee'}
     for e in effs:
@@ -506,6 +510,8 @@ def _judge_mutant(run, mrepo, name, ctx):
 def main(repo_path, tier, seed, replay=None):
     run = Run('C03', tier, level='other', seed=seed)
     repo = Repo(repo_path)
+    from . import c02 as _c02
+    _c02.check_null_check(run, repo, 'C03-N')
     eff = Effects(repo)
     bind = Binding(repo)
     fa = FuncAnalyzer(repo)
